@@ -268,4 +268,77 @@ Section Text.
     destruct (run_refines B zero is_ws is_digit is_sign creatable close_fails (text_history i p mw mr rs) w _ Hinv (equiv_refl B w)) as [Ho _].
     rewrite <- Ho. apply spec_text_roundtrip; auto. simpl. rewrite Hi. reflexivity.
   Qed.
+
+  (* ------------------------------------------------------------------ the Format sink has no length bound *)
+  (* print_to hands File_Format_To pieces of formatted text; whatever their lengths (no bound: a piece may
+     be longer than any internal buffer), the file then holds exactly their concatenation: reopened and
+     read in ANY chunking it gives the text back, stell = its length *)
+  Definition print_history (i p : nat) (mw mr : mode) (ts : list (list B)) (ns : list nat) : list (op B) :=
+    OOpen B i p mw :: map (OPrint B i) ts ++ [OTell B i] ++ [OClose B i; OOpen B i p mr] ++
+    map (ORead B i) ns ++ [OTell B i; OEof B i; ORead B i 1; OEof B i].
+  Definition print_outcome (ts : list (list B)) (ns : list nat) : list out :=
+    OkUnit B :: map printed ts ++ [OkNum B (length (concat ts))] ++ [OkUnit B; OkUnit B] ++
+    map (got B) (pieces B ns (concat ts)) ++
+    [OkNum B (length (concat ts)); OkBool B false; OkRead B 0 []; OkBool B true].
+
+  Theorem spec_print_read_roundtrip : forall i p mw mr ts ns (a : sworld),
+    sw_objs B a i = SClosed -> creatable p = true -> close_fails p = false ->
+    trunc_mode mw -> from_start_mode mr -> list_sum ns = length (concat ts) ->
+    snd (srun a (print_history i p mw mr ts ns)) = print_outcome ts ns.
+  Proof.
+    intros i p mw mr ts ns a Hi Hc Hcf Hmw Hmr Hsum. unfold print_history, print_outcome.
+    assert (Hf : fopen B creatable (sw_fs B a) p mw = Some (upd (sw_fs B a) p (Some []), mkS p 0 false mw)).
+    { unfold fopen. rewrite Hc. destruct Hmw as [-> | ->]; auto. }
+    rewrite srun_cons. rewrite (sopen_closed B zero is_ws is_digit is_sign creatable close_fails a i p mw _ _ Hi Hf).
+    set (a0 := mkSW B (upd (sw_fs B a) p (Some [])) (upd (sw_objs B a) i (SOpen (mkS p 0 false mw))) (sw_stack B a)).
+    destruct (sprints i ts a0 (mkS p 0 false mw)) as (a1 & s1 & Hr & H1 & H2 & H3 & H4 & H5 & H6 & H7).
+    { unfold a0; simpl. apply upd_same. }
+    { simpl. destruct Hmw as [-> | ->]; auto. }
+    { unfold a0; simpl. rewrite content_upd. auto. }
+    simpl in H2, H3, H4, H5, H6, H7. unfold a0 in H5, H7. simpl in H5, H7. rewrite content_upd in H5. simpl in H5.
+    rewrite srun_app, Hr. cbv beta match. rewrite srun_app.
+    rewrite srun_one, (stell_open B zero is_ws is_digit is_sign creatable close_fails a1 i s1 H1). cbv beta match.
+    rewrite srun_app.
+    assert (Hcl : sstep a1 (OClose B i) = (s_set B a1 i SClosed, OkUnit B)).
+    { apply (sclose_open B zero is_ws is_digit is_sign creatable close_fails a1 i s1 H1). rewrite H2; auto. }
+    set (a2 := s_set B a1 i SClosed) in *.
+    assert (Hne : sw_fs B a1 p <> None) by (apply H7; rewrite upd_same; discriminate).
+    assert (Hex : exists c0, sw_fs B a2 p = Some c0).
+    { unfold a2; simpl. destruct (sw_fs B a1 p) eqn:E; [eauto|contradiction]. }
+    destruct Hex as [c0 Hc0].
+    assert (Hop : exists fs3, fopen B creatable (sw_fs B a2) p mr = Some (fs3, mkS p 0 false mr) /\
+                              content B fs3 p = concat ts).
+    { unfold fopen. rewrite Hc. simpl negb. cbv iota.
+      destruct Hmr as [-> | [-> | ->]].
+      - rewrite Hc0. eexists; split; eauto.
+      - rewrite Hc0. eexists; split; eauto.
+      - eexists; split; eauto. rewrite content_upd. unfold a2; simpl; auto. }
+    destruct Hop as (fs3 & Hop & Hcont).
+    assert (Hi2 : sw_objs B a2 i = SClosed) by (unfold a2; simpl; apply upd_same).
+    rewrite srun_cons, Hcl. cbv beta match.
+    rewrite srun_one, (sopen_closed B zero is_ws is_digit is_sign creatable close_fails a2 i p mr fs3 _ Hi2 Hop). cbv beta match.
+    set (a3 := mkSW B fs3 (upd (sw_objs B a2) i (SOpen (mkS p 0 false mr))) (sw_stack B a2)).
+    pose proof (phase_read B zero is_ws is_digit is_sign creatable close_fails i ns a3 (mkS p 0 false mr) (concat ts)) as Hrd.
+    destruct (srun a3 (map (ORead B i) ns ++ [OTell B i; OEof B i; ORead B i 1; OEof B i])) as [a4 outs].
+    simpl in Hrd. rewrite Hrd; auto.
+    - rewrite H6, H5. simpl. reflexivity.
+    - unfold a3; simpl. apply upd_same.
+    - destruct Hmr as [-> | [-> | ->]]; auto.
+  Qed.
+
+  Theorem print_read_roundtrip : forall fs objs pre i p mw mr ts ns,
+    (forall j h, objs j <> FObj (Some h)) ->
+    let w := fst (runF (w_init B fs objs) pre) in
+    w_objs B w i = FObj None -> creatable p = true -> close_fails p = false ->
+    trunc_mode mw -> from_start_mode mr -> list_sum ns = length (concat ts) ->
+    snd (runF w (print_history i p mw mr ts ns)) = print_outcome ts ns /\
+    concat (pieces B ns (concat ts)) = concat ts.
+  Proof.
+    intros fs objs pre i p mw mr ts ns Hn w Hi Hc Hcf Hmw Hmr Hsum.
+    destruct (run_inv B zero is_ws is_digit is_sign creatable close_fails pre _ (inv_init B fs objs Hn)) as [Hinv _].
+    fold w in Hinv.
+    destruct (run_refines B zero is_ws is_digit is_sign creatable close_fails (print_history i p mw mr ts ns) w _ Hinv (equiv_refl B w)) as [Ho _].
+    split; [|apply pieces_concat; auto].
+    rewrite <- Ho. apply spec_print_read_roundtrip; auto. simpl. rewrite Hi. reflexivity.
+  Qed.
 End Text.
